@@ -195,7 +195,7 @@ func verifyFunc(p *Prog, key string) *FuncResult {
 // frameObls: ghost stores whose value changed must appear in the contract's modifies clause.
 func (e *Engine) frameObls(st, entry *State, c *Contract) {
 	allowed := map[string]bool{}
-	for _, m := range c.Modifies {
+	for _, m := range e.expandMods(c.Modifies) {
 		allowed[e.modName(m)] = true
 	}
 	if allowed["G_*"] {
